@@ -13,6 +13,7 @@ The independent encoder / signer in the first part of this file is also imported
 (sig_soundness, hashed_area, fingerprints, packets).
 """
 import hashlib
+import os
 import multiprocessing
 import random
 import re
@@ -223,7 +224,7 @@ class KeySet(object):
     def __init__(self, name, alg, size):
         global _JPG
         if _JPG is None:
-            with open('/repo/tests/testdata/simple.jpg', 'rb') as f:
+            with open(os.path.join(os.environ.get('PYVC_REPO', '/repo'), 'tests/testdata/simple.jpg'), 'rb') as f:
                 _JPG = f.read()
         self.name = name
         k = pgpy.PGPKey.new(alg, size, created=T0)
